@@ -19,11 +19,22 @@ def _oracle(name):
     raise KeyError(name)
 
 
-def run_oracles(text, oracles, tag=None):
-    """Run one input through the real pipeline and evaluate the named single-run oracles on its snapshot."""
+def run_oracles(text, oracles, tag=None, contracts=True):
+    """Run one input through the real pipeline (contracts attached to the real functions) and evaluate the named
+    single-run oracles on its snapshot."""
+    if contracts:
+        from . import contracts as C
+        C.attach()
+        C.reset()
     res = runner.run_text(text)
     out = {'tag': tag, 'ok': res.ok, 'exc_type': res.exc_type, 'exc_msg': (res.exc_msg or '')[:200],
            'stages': res.stages, 'wall': res.wall, 'mons': {}, 'cfg': None}
+    if contracts:
+        d = C.dump()
+        # contract observations of a run that later failed are still observations of real calls
+        out['contracts'] = d['mons']
+        out['contract_counts'] = d['counts']
+        out['contract_engine'] = d['engine']
     if not res.ok or res.snap is None:
         if not res.ok and res.tb:
             out['tb_tail'] = res.tb.strip().splitlines()[-3:]
